@@ -4,9 +4,16 @@ package inslib
 
 import (
 	"context"
+	"errors"
 	"fmt"
+	"go/ast"
+	"go/parser"
+	"go/token"
 	"io"
 	"net/http"
+	"net/http/httptest"
+	"os"
+	"path/filepath"
 	"reflect"
 	"sort"
 	"strconv"
@@ -29,6 +36,7 @@ import (
 	"github.com/metrico/qryn/writer/utils/numbercache"
 	"github.com/metrico/qryn/writer/utils/promise"
 
+	"verif/mc/ev"
 	"verif/mc/sched"
 )
 
@@ -232,8 +240,9 @@ type Attempt struct {
 type ReqStatus struct {
 	AnswerSeq int // position in the observation order of the (first) answer
 	Answers   int
-	Err     error
-	IDs     []int
+	Code      int  // HTTP status the client received (implicit 200 when the handler wrote nothing)
+	OK        bool // 2xx: the write was acknowledged
+	IDs       []int
 }
 
 // World is everything observed in one execution.
@@ -246,10 +255,105 @@ type World struct {
 	idsOf    map[any][]int
 }
 
+// injectedErr is what the fake database answers when the explorer decides an INSERT (or connect) fails.  Its TEXT is
+// drawn from ErrTexts: the handler maps errors to HTTP answers partly by their text, so the text is part of the fault.
+type injectedErr struct{ text string }
+
+func (e *injectedErr) Error() string { return e.text }
+
+func isInjected(err error) bool {
+	var ie *injectedErr
+	if errors.As(err, &ie) {
+		return true
+	}
+	if err == nil {
+		return false
+	}
+	for _, t := range ErrTexts {
+		if strings.Contains(err.Error(), t) {
+			return true
+		}
+	}
+	return strings.Contains(err.Error(), "injected")
+}
+
+// ErrTexts is the menu of error texts of an injected database failure: a generic ClickHouse exception first, then one
+// text per string literal that the writer's controller package compares error texts with (scanned from the tree under
+// test with go/ast: arguments of strings.HasPrefix/HasSuffix/Contains/EqualFold and operands of ==/!= next to an
+// .Error() call), bare and embedded.  Cfg.ErrKind indexes it.
+var ErrTexts = []string{"code: 999, message: injected INSERT failure"}
+
+func scanErrTexts() {
+	dir := filepath.Join(ev.Repo(), "writer", "controller")
+	fset := token.NewFileSet()
+	pkgs, err := parser.ParseDir(fset, dir, func(fi os.FileInfo) bool { return !strings.HasSuffix(fi.Name(), "_test.go") }, 0)
+	if err != nil {
+		panic(sched.HarnessError{Msg: "scan of writer/controller: " + err.Error()})
+	}
+	seen := map[string]bool{}
+	var lits []string
+	add := func(e ast.Expr) {
+		if bl, ok := e.(*ast.BasicLit); ok && bl.Kind == token.STRING {
+			if v, err := strconv.Unquote(bl.Value); err == nil && len(v) >= 3 && !seen[v] {
+				seen[v] = true
+				lits = append(lits, v)
+			}
+		}
+	}
+	mentionsErrorText := func(n ast.Node) bool {
+		found := false
+		ast.Inspect(n, func(m ast.Node) bool {
+			if c, ok := m.(*ast.CallExpr); ok {
+				if se, ok := c.Fun.(*ast.SelectorExpr); ok && se.Sel.Name == "Error" && len(c.Args) == 0 {
+					found = true
+				}
+			}
+			return !found
+		})
+		return found
+	}
+	var names []string
+	for n := range pkgs {
+		names = append(names, n)
+	}
+	sort.Strings(names)
+	for _, pn := range names {
+		var files []string
+		for fn := range pkgs[pn].Files {
+			files = append(files, fn)
+		}
+		sort.Strings(files)
+		for _, fn := range files {
+			ast.Inspect(pkgs[pn].Files[fn], func(n ast.Node) bool {
+				switch x := n.(type) {
+				case *ast.CallExpr:
+					if se, ok := x.Fun.(*ast.SelectorExpr); ok {
+						if id, ok := se.X.(*ast.Ident); ok && id.Name == "strings" && mentionsErrorText(x) {
+							for _, a := range x.Args {
+								add(a)
+							}
+						}
+					}
+				case *ast.BinaryExpr:
+					if (x.Op == token.EQL || x.Op == token.NEQ) && mentionsErrorText(x) {
+						add(x.X)
+						add(x.Y)
+					}
+				}
+				return true
+			})
+		}
+	}
+	for _, l := range lits {
+		ErrTexts = append(ErrTexts, l, "read tcp 10.0.0.1:9000: "+l+" (peer)")
+	}
+}
+
 type fakeClient struct {
 	ch_wrapper.IChClient
-	w      *World
-	closed bool
+	w       *World
+	closed  bool
+	errText string
 }
 
 func (c *fakeClient) Ping(ctx context.Context) error { return nil }
@@ -265,7 +369,7 @@ func (c *fakeClient) Do(ctx context.Context, q ch.Query) error {
 	// the database decides the outcome
 	switch sched.Choose("insert", 3, true) {
 	case 1:
-		b.Err = fmt.Errorf("code: 999, message: injected INSERT failure #%d", b.Seq)
+		b.Err = &injectedErr{c.errText}
 	case 2:
 		// slow database: nothing comes back until the write timeout of the request context expires
 		if ctx.Done() == nil {
@@ -364,10 +468,15 @@ type Cfg struct {
 	Chunks   int    `json:"chunks"`    // parser chunks per request
 	Rows     int    `json:"rows"`      // rows per chunk and table
 	Flusher  bool   `json:"flusher"`   // an extra thread forcing PlanFlush at an arbitrary moment
+	ErrKind  int    `json:"err_kind"`  // index into ErrTexts: the text of every injected INSERT failure of the execution
 }
 
 func (c Cfg) Name() string {
-	return fmt.Sprintf("%s/par%d/q%d/retry%d/reqs%d/chunks%d/rows%d/flush%v", c.Kind, c.Parallel, c.MaxQueue, c.Retry, c.Reqs, c.Chunks, c.Rows, c.Flusher)
+	n := fmt.Sprintf("%s/par%d/q%d/retry%d/reqs%d/chunks%d/rows%d/flush%v", c.Kind, c.Parallel, c.MaxQueue, c.Retry, c.Reqs, c.Chunks, c.Rows, c.Flusher)
+	if c.ErrKind != 0 {
+		n += fmt.Sprintf("/err%d", c.ErrKind)
+	}
+	return n
 }
 
 type stubCache struct{}
@@ -387,6 +496,7 @@ func initGlobals() {
 	config.Cloki = &clconfig.ClokiConfig{Setting: &clcfg.ClokiBaseSettingServer{}}
 	service.CreateColPools(0)
 	service.VerifShrinkPools()
+	scanErrTexts()
 	controllerv1.FPCache = stubCache{}
 }
 
@@ -404,9 +514,12 @@ func (s *Scenario) Run() any {
 	factory := func() (ch_wrapper.IChClient, error) {
 		w.Connects++
 		if sched.Choose("connect", 2, true) == 1 {
-			return nil, fmt.Errorf("dial tcp: connection refused (injected)")
+			return nil, &injectedErr{"dial tcp 10.0.0.1:9000: connect: connection refused"}
 		}
-		return &fakeClient{w: w}, nil
+		if c.ErrKind < 0 || c.ErrKind >= len(ErrTexts) {
+			panic(sched.HarnessError{Msg: fmt.Sprintf("scenario asks for error text %d, the menu has %d", c.ErrKind, len(ErrTexts))})
+		}
+		return &fakeClient{w: w, errText: ErrTexts[c.ErrKind]}, nil
 	}
 	node := &model.DataDatabasesMap{}
 	node.Node = "n1"
@@ -507,14 +620,31 @@ func (s *Scenario) Run() any {
 		}
 		ctx = context.WithValue(ctx, keyB, service.IInsertServiceV2(pb))
 		req, _ := http.NewRequestWithContext(ctx, "POST", "/push", nil)
+		// the request goes through the real handler chain: Build -> PusherCtx.Do -> parser entry (doParse) -> post-request
+		// status writer, errors through the real ErrorHandler; the two options below are withSimpleParser("*", parser) and
+		// withOkStatusAndBody(204, nil) written with the exported API, so that only doParse needs an overlay export
+		handler := controllerv1.Build(
+			func(ctx *controllerv1.PusherCtx) *controllerv1.PusherCtx {
+				ctx.Parser["*"] = func(_ http.ResponseWriter, r *http.Request) error { return controllerv1.VerifDoParse(r, parser) }
+				return ctx
+			},
+			func(ctx *controllerv1.PusherCtx) *controllerv1.PusherCtx {
+				ctx.PostRequest = append(ctx.PostRequest, func(w http.ResponseWriter, _ *http.Request) error {
+					w.WriteHeader(http.StatusNoContent)
+					return nil
+				})
+				return ctx
+			})
 		sched.GoNamed(fmt.Sprintf("req%d", r), false, func() {
-			err := controllerv1.VerifDoParse(req, parser)
+			rec := httptest.NewRecorder()
+			handler(rec, req)
 			w.seq++
 			if st.Answers == 0 {
 				st.AnswerSeq = w.seq
 			}
 			st.Answers++
-			st.Err = err
+			st.Code = rec.Code // 200 when nothing was written, exactly what net/http would send
+			st.OK = rec.Code >= 200 && rec.Code < 300
 		})
 	}
 	if c.Flusher {
@@ -620,7 +750,7 @@ func (s *Scenario) Check(obs any, res *sched.Result) (string, []sched.Finding) {
 		if len(a.IDs) == 0 {
 			continue
 		}
-		if !pending && perr != nil && !strings.Contains(perr.Error(), "injected") {
+		if !pending && perr != nil && !isInjected(perr) {
 			continue // refused before any row was buffered (service stopped / wrong type): no block to match
 		}
 		k := used[a.IDs[0]]
@@ -662,7 +792,7 @@ func (s *Scenario) Check(obs any, res *sched.Result) (string, []sched.Finding) {
 			add("C01", "request_never_answered", fmt.Sprintf("request %d got no answer (%s; unfinished=%v) although the database kept answering", i, res.Failure, res.Unfinished))
 		case st.Answers > 1:
 			add("C01", "request_answered_twice", fmt.Sprintf("request %d got %d answers", i, st.Answers))
-		case st.Err == nil:
+		case st.OK:
 			outcome = append(outcome, "ok")
 			for _, id := range st.IDs {
 				good, early := false, false
@@ -678,7 +808,7 @@ func (s *Scenario) Check(obs any, res *sched.Result) (string, []sched.Finding) {
 					}
 				}
 				if !good {
-					add("C01", "ack_without_successful_insert", fmt.Sprintf("request %d was acknowledged but row %d was in no successful INSERT (blocks with it: %d)", i, id, len(okBlocks[id])))
+					add("C01", "ack_without_successful_insert", fmt.Sprintf("request %d was acknowledged (HTTP %d) but row %d was in no successful INSERT (blocks with it: %d)", i, st.Code, id, len(okBlocks[id])))
 					break
 				}
 				if early {
